@@ -23,6 +23,10 @@ type SinkPlan struct {
 	Partial    int    `json:"partial,omitempty"` // bytes of the failing call that are persisted
 	Kind       string `json:"kind,omitempty"`    // EIO | ENOSPC
 	ByteWriter bool   `json:"byte_writer,omitempty"`
+	// FullCount: the failing call persists all its bytes and reports the full
+	// count together with the error (legal for an io.Writer: n < len(p)
+	// requires an error, an error does not require n < len(p))
+	FullCount bool `json:"full_count,omitempty"`
 }
 
 // Sink is a recording, fault-injecting io.Writer.
@@ -84,6 +88,9 @@ func (s *Sink) write(p []byte) (int, error) {
 		}
 		if n < 0 {
 			n = 0
+		}
+		if s.Plan.FullCount && s.Calls == s.Plan.FailAt {
+			n = len(p)
 		}
 		s.Image = append(s.Image, p[:n]...)
 		return n, s.Err
